@@ -947,6 +947,18 @@ def epilogue(ctx, r):
                 hs = {q.last_seg(h) for h in q.pat_heads(l["init"]["pat"])}
                 for b in q.pat_bindings(l["pat"]):
                     flags[b] = hs & kinds
+            # the same flag computed by a match on the kind with boolean arms
+            if l["k"] == "Local" and l.get("init") is not None and l["init"]["k"] == "Match" and "kind" in q.show(l["init"]["e"]):
+                arms_ = l["init"]["arms"]
+                if all(q.show(a_["body"]).strip("{} ") in ("true", "false") or (a_["body"]["k"] == "Lit" and a_["body"].get("t") == "bool") for a_ in arms_):
+                    yes = set()
+                    for a_ in arms_:
+                        val = a_["body"]["v"] if a_["body"]["k"] == "Lit" else q.show(a_["body"]).strip("{} ")
+                        hs_ = {q.last_seg(h) for h in q.pat_heads(a_["pat"])}
+                        if str(val) == "true":
+                            yes |= (kinds if "_" in hs_ else hs_ & kinds)
+                    for b in q.pat_bindings(l["pat"]):
+                        flags[b] = yes
 
         def cond_kinds(c):
             """Kinds for which a condition over kind flags holds, or None if it is not such a condition."""
@@ -970,14 +982,11 @@ def epilogue(ctx, r):
                         if any(y is node for y in q.walk(a["body"])):
                             hs = {q.last_seg(h) for h in q.pat_heads(a["pat"])}
                             ks &= (kinds if "_" in hs else hs & kinds)
-                elif m["k"] == "If":
-                    ck = cond_kinds(m["c"])
-                    if ck is None:
-                        continue
-                    if any(y is node for y in q.walk(m["t"])):
-                        ks &= ck
-                    elif m.get("e") is not None and any(y is node for y in q.walk(m["e"])):
-                        ks &= kinds - ck
+            # tests of kind flags on the way to the node: enclosing ifs, and earlier `if flag { ..; return }` guards
+            for c_, pol in q.path_conds(tb["body"], node) or []:
+                ck = cond_kinds(c_)
+                if ck is not None:
+                    ks &= ck if pol else kinds - ck
             return ks
 
         pushing, stop_k, ret_k = set(), set(), set()
@@ -1758,7 +1767,7 @@ def tuple_slot(ctx, r):
                     r.ob(not named_after or i in named_after, f"translate_bytecode.rs:{g['name']}:{f['name']}:{bs[0]}:bound-to-another-component", TB, l["l"],
                          f"{g['name']}: `{bs[0]}` is bound to component #{i} (`{comps[i]}`) of {f['name']}(..) = ({', '.join(comps)}), although it is named after `{comps[named_after[0]] if named_after else ''}`; both are {tys[i]}, so the swap compiles: an enclosing function then receives a nested lambda's locals instead of its captures, outer variables used only by the nested lambda are not captured and the generator or the VM faults",
                          sample=f"{g['name']}: {bs[0]} <- {f['name']}.{comps[i]}")
-    r.count("named binders of multi-set results", n, 3, TB)
+    r.count("named binders of multi-set results", n, 0, TB)  # a result struct with named fields removes the hazard altogether
 
 
 @rule("TRY-SUBST", ["C23", "C01"], "for `e?` the recorded instance of Try.branch is that of the tried expression's type and the instance of Try.from_residual that of the enclosing function's return type")
@@ -1830,3 +1839,53 @@ def try_subst(ctx, r):
                      f"{f['name']}: the signature of Try.{method} is instantiated with `{sv['p']}`, the substitution obtained from the {'tried expression' if src == 'tried' else 'enclosing function return type' if src == 'ret' else '?'}; `{method}` {'takes the tried value' if method == 'branch' else 'produces the value the enclosing function returns'}, so it must be the other one. The two agree except when exactly one of the payloads is void: then the generator emits or omits a `pop` for the wrong instance and the operand stack is off by one (internal fault)",
                      sample=f"{f['name']}: Try.{method} instantiated from the {want[method]} type")
     r.count("Try method signatures instantiated", n, 2, TCF)
+
+
+@rule("MONO-TYPE", ["C28", "C03", "C01"], "inside a generic function the generator looks implementations up under the instance's types: a type that reaches an implementation lookup comes from get_ty(mono, ..) (or is substituted), not straight from the checker's solution")
+def mono_type(ctx, r):
+    items = ctx.file_items(TB)
+    if items is None:
+        r.missing(TB)
+        return
+    n = 0
+    for f in q.find_fns(items, impl_ty="Translator"):
+        if f.get("body") is None:
+            continue
+        locs = {}
+        for l in q.walk(f["body"]):
+            if l["k"] == "Local" and l.get("init") is not None:
+                for b in q.pat_bindings(l["pat"]):
+                    locs.setdefault(b, []).append(l["init"])
+
+        def origin(name, depth=0, seen=None):
+            """'mono' if the value was read through get_ty / substituted, 'raw' if it is the checker's unsubstituted solution, None if unknown (a parameter)."""
+            seen = seen or set()
+            if name in seen or depth > 5:
+                return None
+            seen.add(name)
+            res = None
+            for init in locs.get(name, []):
+                calls = [y["m"] for y in q.walk(init) if y["k"] == "MethodCall"]
+                if "get_ty" in calls or "subst" in calls:
+                    return "mono"
+                if "solution_of_node" in calls:
+                    res = "raw"
+                    continue
+                for i_ in sorted(q.idents_in(init)):
+                    o = origin(i_, depth + 1, seen)
+                    if o == "mono":
+                        return "mono"
+                    if o == "raw":
+                        res = "raw"
+            return res
+
+        for c in q.walk(f["body"]):
+            if c["k"] == "MethodCall" and c["m"] == "get_iface_impl_for_type" and c["args"]:
+                n += 1
+                ids = sorted(q.idents_in(c["args"][0]))
+                os_ = [origin(i_) for i_ in ids]
+                bad = "raw" in os_ and "mono" not in os_
+                r.ob(not bad, f"translate_bytecode.rs:{f['name']}:impl-lookup-under-unsubstituted-type", TB, c["l"],
+                     f"{f['name']}: the implementation is looked up for `{q.show(c['args'][0])}`, which comes from the checker's solution of the node without the instance's substitution (`solution_of_node`, not `get_ty(mono, ..)`): inside a generic function the type still mentions the type parameter, no implementation fits it, and the generator panics (`ToString.str` passed as a value inside `fn show(x: T ToString)`)",
+                     sample=f"{f['name']}: implementation looked up under the instance's type")
+    r.count("implementation lookups in the generator", n, 2, TB)
